@@ -563,6 +563,17 @@ def gen_config(rng, idx):
     if not cfg:
         cfg.append({"type": "logger", "name": "zcv.c20.n%d.only" % idx, "level": None, "propagate": None,
                     "handlers": [gen_handler(rng)]})
+    if rng.random() < 0.15:
+        # the same style and format twice, arbitrary-fields on for the first and off for the second
+        for sec in cfg:
+            hs = [h for h in sec["handlers"] if h.get("format") is not None]
+            if hs and len(sec["handlers"]) < 4:
+                h1 = hs[0]
+                h2 = dict(h1)
+                h1["arbitrary-fields"] = "true"
+                h2["arbitrary-fields"] = "false"
+                sec["handlers"].insert(sec["handlers"].index(h1) + 1, h2)
+                break
     return cfg
 
 
